@@ -63,6 +63,20 @@ def gen_signal(st, n):
 
 def gen_snr(st, n, vals):
     spec, exp, text = _gen_snr(st, n, vals)
+    if spec["snr"] is not None and st.coin(1, 4, "integer-typed-snr"):
+        # decibel values and ratios are often whole numbers kept in integer (even unsigned) arrays; snr / 10 is a true
+        # division, so the definition's value is the same - but -snr, snr // 10 or 10 ** snr are not
+        flat = np.asarray(spec["snr"], dtype=float).ravel()
+        if flat.size and np.all(flat == np.round(flat)) and np.all(np.abs(flat) < 120):
+            kinds = ["int64", "int32", "int16"] + (["uint8", "uint16", "uint64"] if np.all(flat >= 0) else [])
+            dt = st.pick(kinds, "snr-dtype")
+            if isinstance(spec["snr"], list):
+                spec["snr"] = [int(v) for v in spec["snr"]] if st.coin(1, 2, "list-of-int") else np.array(spec["snr"]).astype(dt)
+            elif isinstance(spec["snr"], np.ndarray):
+                spec["snr"] = spec["snr"].astype(dt)
+            else:
+                spec["snr"] = getattr(np, dt)(int(flat[0]))
+            text += f", snr as {dt if not isinstance(spec['snr'], list) else 'list of int'}"
     if "db" in spec and st.coin(1, 5, "flag-as-numpy-bool"):
         # a flag taken from an array, a comparison or a DataFrame cell is numpy.bool_, not the singleton True/False
         spec["db_numpy"] = True
